@@ -18,6 +18,12 @@ def NoWrap (len : Nat) : List Atom → Nat → Prop
   | [], _ => True
   | a :: as, c => c + a.size < W ∧ NoWrap len as (a.next len c)
 
+instance NoWrap.dec (len : Nat) : (as : List Atom) → (c : Nat) → Decidable (NoWrap len as c)
+  | [], _ => isTrue trivial
+  | a :: as, c =>
+    have := NoWrap.dec len as (a.next len c)
+    inferInstanceAs (Decidable (c + a.size < W ∧ NoWrap len as (a.next len c)))
+
 /-- counter after a history -/
 def runAtoms (len : Nat) : List Atom → Nat → Nat
   | [], c => c
